@@ -1,12 +1,12 @@
 SPECIFICATION Spec
 CONSTANTS
- RSizes = {4, 8, 16}
+ RSizes = {8, 16}
  Rs = {1, 2, 3}
  NMs <- NMt
- Ls = {0, 1, 3}
- Os = {1, 2, 4}
- ModeLs = {0, 1, 2, 4}
- Extras = {0, 1, 3}
+ Ls = {0, 2}
+ Os = {1, 3}
+ ModeLs = {0, 2, 4}
+ Extras = {0, 3}
 INVARIANT FixedWidth
 INVARIANT Lossless
 INVARIANT RangeCheck
